@@ -120,11 +120,12 @@ def initSt (conc : Nat) : St := { conc := conc }
 /-! ### shared pieces -/
 
 /-- `Condition.notify_all()`: only the producer ever waits on the condition -/
-def notifyProd (s : St) : St :=
-  match s.prod with
-  | .putWait false => { s with prod := .putWait true }
-  | .waitWorker false => { s with prod := .waitWorker true }
-  | _ => s
+def notifyPC : PPC → PPC
+  | .putWait false => .putWait true
+  | .waitWorker false => .waitWorker true
+  | p => p
+
+def notifyProd (s : St) : St := { s with prod := notifyPC s.prod }
 
 /-- `PriorityQueue.put_nowait` of `k` entries wakes up to `k` parked getters -/
 def wakeGetters (s : St) (k : Nat) : St :=
@@ -133,10 +134,12 @@ def wakeGetters (s : St) (k : Nat) : St :=
 def putPills (s : St) (k : Nat) : St :=
   wakeGetters { s with pills := s.pills + k } k
 
-/-- `Event.set()` -/
-def setUnpaused (s : St) : St :=
-  { s with unpaused := true,
-           main := match s.main with | .waitUnpaused false => .waitUnpaused true | m => m }
+/-- `Event.set()` wakes `_unpaused_event.wait()` -/
+def unpauseMC : MPC → MPC
+  | .waitUnpaused false => .waitUnpaused true
+  | m => m
+
+def setUnpaused (s : St) : St := { s with unpaused := true, main := unpauseMC s.main }
 
 /-- `Pipeline.stop()` -/
 def doStop (c : Cfg) (s : St) : St :=
@@ -155,17 +158,20 @@ def doSetConc (s : St) (n : Nat) : St :=
   if n > 0 then setUnpaused s else { s with unpaused := false }
 
 /-- a worker task ended (returned or raised): the `asyncio.wait` callbacks run -/
-def workerGone (s : St) : St :=
-  match s.main with
-  | .waitAny false => { s with main := .waitAny true }
-  | .shutWorkers false => if s.live = 0 then { s with main := .shutWorkers true } else s
-  | _ => s
+def goneMC (m : MPC) (live : Nat) : MPC :=
+  match m with
+  | .waitAny false => .waitAny true
+  | .shutWorkers false => if live = 0 then .shutWorkers true else .shutWorkers false
+  | m => m
+
+def workerGone (s : St) : St := { s with main := goneMC s.main s.live }
 
 /-- the producer task ended: wakes `yield from self._producer_task` -/
-def prodGone (s : St) : St :=
-  match s.main with
-  | .waitProd false => { s with main := .waitProd true }
-  | _ => s
+def pgoneMC : MPC → MPC
+  | .waitProd false => .waitProd true
+  | m => m
+
+def prodGone (s : St) : St := { s with main := pgoneMC s.main }
 
 /-! ### workers -/
 
